@@ -22,6 +22,7 @@ b799cfa C05
 416e3fe C05
 c2ef9e3 C05
 cd7ea18 C05
+be0a804 C05
 dc8a5a8 C29
 44b64a4 C32
 a3f27b2 C33
